@@ -107,12 +107,14 @@ def main():
             for f in demos:
                 os.remove(os.path.join(wt, f))
             rc, o = sh("go test -mod=mod -vet=off -count=1 ./... 2>&1 | grep -v 'no test files' | grep -v '^#' | grep -v 'link:'", cwd=os.path.join(wt, "dnsrocks"))
-            bad = [l for l in o.splitlines() if l.startswith("FAIL") and "[build failed]" not in l or l.startswith("--- FAIL")]
+            def failures(text):
+                return [l for l in text.splitlines() if l.startswith("--- FAIL") or l.startswith("panic:") or (l.startswith("FAIL\t") and "[build failed]" not in l and "[setup failed]" not in l)]
+            bad = failures(o)
             rc2, o2 = sh("go test -mod=mod -vet=off -count=1 ./...", cwd=os.path.join(wt, "dnsrocks/go-cdb-mods"))
-            bad += [l for l in o2.splitlines() if l.startswith("FAIL") or l.startswith("--- FAIL")]
+            bad += failures(o2)
             rc3, o3 = sh("go1.26.8 test -vet=off -count=1 github.com/facebookincubator/dns/dnsrocks/db github.com/facebookincubator/dns/dnsrocks/dnsserver "
                          "github.com/facebookincubator/dns/dnsrocks/fbserver github.com/facebookincubator/dns/dnsrocks/whoami github.com/facebookincubator/dns/dnsrocks/logger", cwd=mod)
-            bad += [l for l in o3.splitlines() if l.startswith("FAIL") or l.startswith("--- FAIL")]
+            bad += failures(o3)
             meta["existing_tests_with_change"] = "PASS" if not bad else "FAIL: " + "; ".join(bad)[:600]
             meta["ran"].append("pinned suite (default go) + go1.26.8 tests of db dnsserver fbserver whoami logger, with the change: " + meta["existing_tests_with_change"])
         # the checks
